@@ -205,15 +205,159 @@ func timeFramesAPI(ctx *core.Ctx) {
 			ctx.SpecFail("a time frame allows exactly its weekday's hours [start, end)", "", map[string]any{"kind": "time-frame", "repr": repr, "weekday": w, "hour": h}, impl, want)
 		}
 	}
+	timeFramesZonedAPI(ctx)
+}
+
+var (
+	dayLong = []string{"sunday", "monday", "tuesday", "wednesday", "thursday", "friday", "saturday"}
+	// fixed zones of the API-level check (seconds east of UTC): every whole hour -12..+14, the :30 and
+	// :45 zones, historical local mean times, the odd second
+	apiOffsets = func() []int {
+		out := []int{12600, 16200, 19800, 20700, 23400, 31500, 34200, 37800, 45900, 49500, -12600, -9000, -34200, 1172, -17762, 8400, 1, -1, 59, 3599, -3601, 86399, -86399}
+		for h := -12; h <= 14; h++ {
+			out = append(out, h*3600)
+		}
+		return out
+	}()
+)
+
+type zonedCase struct {
+	Kind   string `json:"kind"` // "time-frame-zoned"
+	Repr   string `json:"repr"`
+	Unix   int64  `json:"unix"`
+	Offset int    `json:"offset"`         // seconds east of UTC
+	Zone   string `json:"zone,omitempty"` // IANA name the offset was taken from (informative)
+	Local  string `json:"local,omitempty"`
+}
+
+// timeFramesZonedAPI: TimeFrameEntry.Match on explicit time.Time values carried in many zones. What it
+// must look at is the wall clock of the zone the value carries: weekday and hour of (instant + offset).
+func timeFramesZonedAPI(ctx *core.Ctx) {
+	n := ctx.N(4000, 40000)
+	var locs []*time.Location
+	for _, name := range namedZones {
+		if l, err := time.LoadLocation(name); err == nil {
+			locs = append(locs, l)
+		}
+	}
+	for i := 0; i < n; i++ {
+		r := ctx.Rng.Sub()
+		wd := r.Intn(7)
+		hs := r.Range(0, 24)
+		he := r.Range(hs, 24)
+		if r.Chance(25) {
+			hs, he = core.Pick(r, []int{0, 0, 12, 23, 24}), 24
+		}
+		repr := fmt.Sprintf("%s/%d-%d", core.Pick(r, []string{dayNames[wd], dayLong[wd], strings.ToUpper(dayNames[wd]), " " + dayLong[wd] + " ", strings.ToUpper(dayLong[wd][:1]) + dayLong[wd][1:]}), hs, he)
+		e, err := ruleset.ParseTimeFrameEntry(repr)
+		if err != nil {
+			ctx.Disagree("ParseTimeFrameEntry accepts weekday/start-end", map[string]any{"kind": "time-frame", "repr": repr}, err.Error(), "accepted")
+			continue
+		}
+		if int(e.Weekday) != wd || e.HourStart != hs || e.HourEnd != he {
+			ctx.SpecFail("the allow-time-frame parser yields the weekday and hours written", "", map[string]any{"kind": "time-frame", "repr": repr}, fmt.Sprintf("%+v", e),
+				fmt.Sprintf("weekday %d hours %d-%d", wd, hs, he))
+			continue
+		}
+		// the zone
+		var loc *time.Location
+		zname := ""
+		if len(locs) > 0 && r.Chance(30) {
+			loc = core.Pick(r, locs)
+			zname = loc.String()
+		} else {
+			loc = time.FixedZone("", core.Pick(r, apiOffsets))
+		}
+		// the instant: laid on the zone's wall clock around the frame, or on the UTC wall clock around the
+		// frame (where a UTC reading and a local reading part), or anywhere in ±130 years
+		var t time.Time
+		switch r.Intn(5) {
+		case 0, 1:
+			w, h := wd, core.Pick(r, []int{hs, hs - 1, he, he - 1, (hs + he) / 2, r.Intn(24)})
+			if r.Chance(25) {
+				w = r.Intn(7)
+			}
+			t = time.Date(2026, 9, 20+w, h, core.Pick(r, []int{0, 0, 59, r.Intn(60)}), core.Pick(r, []int{0, 59, r.Intn(60)}), 0, loc)
+		case 2, 3:
+			w, h := wd, core.Pick(r, []int{hs, hs - 1, he, he - 1, (hs + he) / 2, r.Intn(24)})
+			t = time.Date(core.Pick(r, []int{2026, 2026, 2024, 1999, 2038}), time.Month(r.Range(1, 12)), 20+w, h, core.Pick(r, []int{0, 59, r.Intn(60)}), r.Intn(60), 0, time.UTC).In(loc)
+		default:
+			t = time.Unix(int64(r.U64()%(2*4102444800))-4102444800, int64(r.Intn(1e9))).In(loc)
+		}
+		_, off := t.Zone()
+		tf := fmt.Sprintf("%d-%d-%d", int(e.Weekday), e.HourStart, e.HourEnd)
+		cs := zonedCase{Kind: "time-frame-zoned", Repr: repr, Unix: t.Unix(), Offset: off, Zone: zname, Local: t.Format("Mon 2006-01-02 15:04:05 -07:00")}
+		judgeZoned(ctx, cs, &e, tf, t)
+	}
+}
+
+func judgeZoned(ctx *core.Ctx, cs zonedCase, e *ruleset.TimeFrameEntry, tf string, t time.Time) {
+	impl := core.B01(e.Match(t))
+	ans := strings.Fields(ctx.Model.MustAsk("C04", "timeframe-at", tf, fmt.Sprint(cs.Unix), fmt.Sprint(cs.Offset)))
+	if len(ans) != 3 {
+		core.Fatalf("C04 timeframe-at: unexpected answer %q", ans)
+	}
+	w, h := wallClock(t)
+	utcW, utcH := wallClock(t.UTC())
+	ctx.Case(fmt.Sprintf("timeframe-zoned|%s|%d|%d", tf, cs.Unix, cs.Offset), true)
+	ctx.Count("api/time-frame-zoned/" + impl)
+	if w != utcW {
+		ctx.Count("api/time-frame-zoned/local-weekday-differs-from-utc")
+	}
+	if h != utcH {
+		ctx.Count("api/time-frame-zoned/local-hour-differs-from-utc")
+	}
+	if cs.Offset%3600 != 0 {
+		ctx.Count("api/time-frame-zoned/offset-not-whole-hours")
+	}
+	if cs.Zone != "" {
+		ctx.Count("api/time-frame-zoned/iana-zone")
+	}
+	// the model's reading of the local wall clock = the standard library's = integer arithmetic
+	if got := fmt.Sprintf("%d %d", int(t.Weekday()), t.Hour()); got != ans[1]+" "+ans[2] || got != fmt.Sprintf("%d %d", w, h) {
+		ctx.Disagree("Time.Weekday/Hour in the value's zone = Model localWeekday/localHour", cs, got, ans[1]+" "+ans[2])
+		return
+	}
+	if impl != ans[0] {
+		ctx.Disagree("TimeFrameEntry.Match(t) = Model TimeFrame.matchesAt", cs, impl, ans[0])
+	} else {
+		ctx.TraceValidated()
+	}
+	// the documented meaning, on the wall clock of the zone the value carries
+	if want := core.B01(w == int(e.Weekday) && e.HourStart <= h && h < e.HourEnd); impl != want {
+		ctx.SpecFail("a time frame allows exactly its weekday's hours [start, end) of the local wall clock, in every time zone", "", cs, impl,
+			fmt.Sprintf("%s (local weekday %d hour %d; UTC weekday %d hour %d)", want, w, h, utcW, utcH))
+	}
+}
+
+// configured pairs of the API-level basic-auth check (the user name of a configuration has no colon;
+// passwords may)
+var configuredPairs = [][2]string{{authUser, authPass}, {"user", "pass"}, {"user", "pass"}, {"a", "b"}, {"admin", ""}, {"u s", " p "}, {"üser", "pässwörd"},
+	{"user", ":"}, {"x", "::y"}, {"User", "user"}, {"aa", "aa"}, {"ab", "ba"}, {"alice", "alice:alice"}, {"sauce", "c29tZTpwYXNz"}, {"j", "longer-password-0123456789"}}
+
+func genConfiguredPair(r *core.Rand) (string, string) {
+	if r.Chance(70) {
+		p := core.Pick(r, configuredPairs)
+		return p[0], p[1]
+	}
+	gen := func(alpha string, lo, hi int) string {
+		var b strings.Builder
+		for k := r.Range(lo, hi); k > 0; k-- {
+			b.WriteByte(alpha[r.Intn(len(alpha))])
+		}
+		return b.String()
+	}
+	return gen("abAB1 -_.u", 1, 6), gen("abAB1: =p", 0, 8)
 }
 
 func basicAuthAPI(ctx *core.Ctx) {
-	n := ctx.N(3000, 30000)
+	n := ctx.N(6000, 60000)
 	ba := middleware.NewProxyBasicAuth()
 	for i := 0; i < n; i++ {
 		r := ctx.Rng.Sub()
-		vals, label := genAuth(r)
-		if r.Chance(10) {
+		user, pass := genConfiguredPair(r)
+		vals, label := genAuthFor(r, user, pass, false)
+		if r.Chance(7) {
 			// arbitrary printable value
 			k := r.Range(0, 30)
 			var b strings.Builder
@@ -222,29 +366,43 @@ func basicAuthAPI(ctx *core.Ctx) {
 			}
 			vals, label = []string{core.Pick(r, []string{"Basic ", "basic ", ""}) + b.String()}, "auth-arbitrary"
 		}
-		req := &http.Request{Header: http.Header{}}
-		for _, v := range vals {
-			req.Header.Add("Proxy-Authorization", v)
-		}
-		impl := core.B01(ba.AuthenticatedRequest(req, authUser, authPass))
-		first := ""
-		if len(vals) > 0 {
-			first = vals[0]
-		}
-		model := ctx.Model.MustAsk("C04", "auth", core.HexS(authUser), core.HexS(authPass), core.HexS(first))
-		cs := map[string]any{"kind": "basic-auth", "values": vals}
-		ctx.Case("basicauth|"+strings.Join(vals, "\x00"), len(vals) > 0)
+		judgeBasicAuth(ctx, ba, user, pass, vals, label)
+	}
+}
+
+func judgeBasicAuth(ctx *core.Ctx, ba *middleware.BasicAuth, user, pass string, vals []string, label string) {
+	req := &http.Request{Header: http.Header{}}
+	for _, v := range vals {
+		req.Header.Add("Proxy-Authorization", v)
+	}
+	impl := core.B01(ba.AuthenticatedRequest(req, user, pass))
+	first := ""
+	if len(vals) > 0 {
+		first = vals[0]
+	}
+	model := ctx.Model.MustAsk("C04", "auth", core.HexS(user), core.HexS(pass), core.HexS(first))
+	cs := map[string]any{"kind": "basic-auth", "user": user, "pass": pass, "values": vals}
+	ctx.Case("basicauth|"+user+"\x00"+pass+"\x00"+strings.Join(vals, "\x00"), len(vals) > 0)
+	if label != "" {
 		ctx.Count("api/basic-auth/" + label + "/" + impl)
-		if impl != model {
-			ctx.Disagree("BasicAuth.AuthenticatedRequest = Model authenticated", cs, impl, model)
-		} else {
-			ctx.TraceValidated()
-		}
-		// the property: authenticated iff the first value decodes to exactly the configured pair
-		u, p, ok := decodeBasic(first)
-		if want := core.B01(first != "" && ok && u == authUser && p == authPass); impl != want {
-			ctx.SpecFail("authenticated only by Basic credentials equal to the configured user and password", "", cs, impl, want)
-		}
+	}
+	if impl != model {
+		ctx.Disagree("BasicAuth.AuthenticatedRequest = Model authenticated", cs, impl, model)
+	} else {
+		ctx.TraceValidated()
+	}
+	// the property: authenticated iff the first value decodes to exactly the configured pair — user and
+	// password each compared as a whole, the decoded string split at its first colon
+	u, p, ok := decodeBasic(first)
+	want := first != "" && ok && u == user && p == pass
+	if ok && !want && u+p == user+pass {
+		ctx.Count("api/basic-auth/same-concatenation-other-pair")
+	}
+	if ok && !want && u+":"+p == user+":"+pass {
+		core.Fatalf("C04 oracle: equal credential strings split into different pairs")
+	}
+	if impl != core.B01(want) {
+		ctx.SpecFail("authenticated only by Basic credentials equal to the configured user and password", "", cs, impl, core.B01(want))
 	}
 }
 
@@ -253,6 +411,8 @@ func replayAPI(ctx *core.Ctx, kind string, raw json.RawMessage) {
 	var c struct {
 		S      string   `json:"s"`
 		Values []string `json:"values"`
+		User   *string  `json:"user"`
+		Pass   *string  `json:"pass"`
 	}
 	json.Unmarshal(raw, &c)
 	switch kind {
@@ -274,19 +434,20 @@ func replayAPI(ctx *core.Ctx, kind string, raw json.RawMessage) {
 			ctx.Disagree("url.Hostname/Port = Model urlSplitHostPort", map[string]any{"kind": kind, "s": c.S}, impl, model)
 		}
 	case "basic-auth":
-		req := &http.Request{Header: http.Header{}}
-		for _, v := range c.Values {
-			req.Header.Add("Proxy-Authorization", v)
+		user, pass := authUser, authPass
+		if c.User != nil && c.Pass != nil {
+			user, pass = *c.User, *c.Pass
 		}
-		first := ""
-		if len(c.Values) > 0 {
-			first = c.Values[0]
+		judgeBasicAuth(ctx, middleware.NewProxyBasicAuth(), user, pass, c.Values, "")
+	case "time-frame-zoned":
+		var z zonedCase
+		json.Unmarshal(raw, &z)
+		e, err := ruleset.ParseTimeFrameEntry(z.Repr)
+		if err != nil {
+			ctx.Disagree("ParseTimeFrameEntry accepts weekday/start-end", z, err.Error(), "accepted")
+			return
 		}
-		impl := core.B01(middleware.NewProxyBasicAuth().AuthenticatedRequest(req, authUser, authPass))
-		model := ctx.Model.MustAsk("C04", "auth", core.HexS(authUser), core.HexS(authPass), core.HexS(first))
-		ctx.Case("basicauth|"+strings.Join(c.Values, "\x00"), true)
-		if impl != model {
-			ctx.Disagree("BasicAuth.AuthenticatedRequest = Model authenticated", map[string]any{"kind": kind, "values": c.Values}, impl, model)
-		}
+		t := time.Unix(z.Unix, 0).In(time.FixedZone("", z.Offset))
+		judgeZoned(ctx, z, &e, fmt.Sprintf("%d-%d-%d", int(e.Weekday), e.HourStart, e.HourEnd), t)
 	}
 }
